@@ -244,6 +244,11 @@ def run_tie(ck, tf, n_hist, profile, configs=CONFIGS, corpus=(), kwargs_for=None
         csv, auto = configs[h % len(configs)]
         kw = kwargs_for(h) if kwargs_for else None
         prof = dict(profile, storage_kwargs=kw) if kw is not None else profile
+        # every scenario this check prefers is run ONCE IN EVERY CONFIGURATION at the head of the run, whatever the random choices further on: what a
+        # check is known to catch does not depend on how the scenario list or the random stream happens to be laid out
+        upref = list(dict.fromkeys(profile.get("scenario_pref") or []))
+        if upref and h < len(upref) * len(configs) and not profile.get("scenario_force"):
+            prof = dict(prof, scenario_force=upref[(h // len(configs)) % len(upref)], p_scenario=1.0)
         g = dbgen.Gen((gen_seed << 20) + h, prof)
         ops = sanitize_for(kw if csv else None, g.history(csv))
         cases.append((csv, auto, ops, None))
